@@ -585,4 +585,14 @@ GROUPS = [
     Group('historyHash', 'h_historyHash', enforce='Position_historyHash', replace=('BitBoard_bitCount',), min_props=3),
     Group('bookHash', 'h_bookHash', enforce='Position_bookHash', min_props=3),
 ]
-PROPERTIES = {'C02': [g.name for g in GROUPS]}
+# fold_lemma (update lemma of the fold ghosts) is built but does not close (see DESIGN 13.3): not part of the claim
+PROPERTIES = {'C02': [g.name for g in GROUPS if g.name != 'fold_lemma']}
+ASSUMPTIONS = {'C02': [
+    'fold ghosts: ghost_H/ghost_PH/ghost_MAT/ghost_WM/.. stand for the from-scratch folds (xor of Zobrist keys, sums of material ids and piece values) of the current board; the single-square update lemma behind them (commutativity and associativity of xor / modular addition over 64 squares) is NOT machine-checked (group fold_lemma exists, SAT proof does not finish)',
+    'pinned: squares[] is written only by setPiece, clearPiece, movePieceNotPawn (ghost updates spliced there), the ...B/SEE variants, the constructor and deSerialize',
+    'Zobrist key tables and piece values are uninterpreted functions; psHashKeys[EMPTY][*] == 0 is pinned against the initialiser',
+    'assumed contracts: NNEvaluator callbacks (setPiece/pushState/popState/forceFullEval) touch evaluator state only (C07)',
+    'material sums stay within +-10^6 (precondition; follows from at most 32 men of value <= 9900)',
+    'induction over move histories from the per-operation contracts is a paper argument',
+]}
+NOT_DECIDED = {'C02': ['FEN text write/read round trip (std::string)', 'deSerialize and computeZobristHash (loops recomputing the folds)', 'Position copy construction/assignment', 'negative half-move clock accepted by readFEN (outside every extracted function)']}
